@@ -307,10 +307,12 @@ Record sys := mkSys {
   net : list pmsg;                   (* messages between the remote ports *)
   (* ghost logs: never read by a transition *)
   g_acc : list migreq;               (* requests accepted by A's control port, in order *)
-  g_done : list pmsg                 (* messages taken from A's control port, in order *)
+  g_done : list pmsg;                (* messages taken from A's control port, in order *)
+  g_accb : list migreq;              (* the same for B *)
+  g_doneb : list pmsg
 }.
 #[export] Instance eta_sys : Settable _ := settable! mkSys
-  <pa; pb; sta; stb; mqa; mqb; mra; mrb; net; g_acc; g_done>.
+  <pa; pb; sta; stb; mqa; mqb; mra; mrb; net; g_acc; g_done; g_accb; g_doneb>.
 
 Definition getp (w : who) (s : sys) : pmc := match w with PA => pa s | PB => pb s end.
 Definition setp (w : who) (p : pmc) (s : sys) : sys :=
@@ -403,14 +405,14 @@ Definition step (s : sys) (e : ev) : sys * obs :=
   | ECtrlReq w m =>
     if can_push (ctl_in (getp w s))
     then (let s1 := setp w (getp w s <| ctl_in := ctl_in (getp w s) ++ [MMigReq m] |>) s in
-          match w with PA => s1 <| g_acc := g_acc s ++ [m] |> | PB => s1 end, OAcc true)
+          match w with PA => s1 <| g_acc := g_acc s ++ [m] |> | PB => s1 <| g_accb := g_accb s ++ [m] |> end, OAcc true)
     else (s, OAcc false)
   | ETakeCtrl w =>
     match ctl_out (getp w s) with
     | [] => (s, OMsg None)
     | m :: r =>
       (let s1 := setp w (getp w s <| ctl_out := r |>) s in
-       match w with PA => s1 <| g_done := g_done s ++ [m] |> | PB => s1 end, OMsg (Some m))
+       match w with PA => s1 <| g_done := g_done s ++ [m] |> | PB => s1 <| g_doneb := g_doneb s ++ [m] |> end, OMsg (Some m))
     end
   | EInject m => (s <| net := net s ++ [m] |>, OAcc true)
   end.
@@ -429,7 +431,7 @@ Definition RB : N := 5.  Definition CB : N := 6.  Definition LB : N := 7.  Defin
 Definition CP_A : N := 9. Definition CP_B : N := 10.
 
 Definition init_sys (a b : pmc) (sa sb : store) : sys :=
-  mkSys a b sa sb [] [] [] [] [] [] [].
+  mkSys a b sa sb [] [] [] [] [] [] [] [] [].
 
 Definition std_sys (sa sb : store) : sys :=
   init_sys (init_pmc RA CA LA MA) (init_pmc RB CB LB MB) sa sb.
